@@ -106,6 +106,11 @@ class ApplicationConfig(Config):
 
     @property
     def dispatcher(self):  # type: () -> EventDispatcher
+        if self._dispatcher is None:
+            # Created on first use, so that whoever asks for the dispatcher
+            # before a listener is added gets the one listeners are added to
+            self._dispatcher = EventDispatcher()
+
         return self._dispatcher
 
     def set_event_dispatcher(
